@@ -48,6 +48,7 @@ func runC17(c *Ctx) {
 	// (1) isFileToGenerate: the whole decision, as a truth table (robust to the shape of the control flow)
 	c17GenerateTable(c)
 	batchKeyRule(c, "BATCH-KEY")
+	c17ProtoFileTotal(c)
 	// ImagesToCodeGeneratorRequests: fill loop before request loop
 	if fr := p.Func("private/bufpkg/bufimage", "ImagesToCodeGeneratorRequests"); fr != nil {
 		g := p.CFGOf(fr.Decl.Body, info)
@@ -277,12 +278,20 @@ func runC17(c *Ctx) {
 		// "x.go" under "gen" - are then one key; a (out, name) pair or an unjoined name is not)
 		if vsf := p.SSAFunc(vp.Obj); vsf != nil {
 			isJoined := func(k ssa.Value) bool {
-				call, ok := stripConv(k).(*ssa.Call)
-				if !ok {
+				// a string key computed from (possibly normalised) Join(out, name)
+				if b, ok := k.Type().Underlying().(*types.Basic); !ok || b.Kind() != types.String {
 					return false
 				}
-				fn := staticCalleeObj(&call.Call)
-				if fn == nil || fn.Name() != "Join" {
+				var call *ssa.Call
+				sliceBack(k, func(x ssa.Value) bool {
+					if cc, ok := x.(*ssa.Call); ok && call == nil {
+						if fn := staticCalleeObj(&cc.Call); fn != nil && fn.Name() == "Join" {
+							call = cc
+						}
+					}
+					return call == nil
+				})
+				if call == nil {
 					return false
 				}
 				out, name := false, false
@@ -640,4 +649,100 @@ func callSorts(p *Prog, fn *types.Func, depth int) bool {
 		return true
 	})
 	return found
+}
+
+// c17ProtoFileTotal (PROTOFILE-TOTAL): "each request carries all transitive dependencies of its files in dependency
+// order". The image is already closed and ordered (C01); the request keeps that only if the loop that builds
+// CodeGeneratorRequest.ProtoFile visits every image file and stores exactly one descriptor per file at the file's own
+// position: the store `ProtoFile[key] = …` (or an append) is a top-level statement of the loop over image.Files(), the
+// loop has no `continue`/`break` that could skip it, and an indexed store uses the range key into a slice made with
+// len(files) elements. A skipped or mis-indexed element leaves a nil entry or drops a dependency the plugin needs.
+func c17ProtoFileTotal(c *Ctx) {
+	const rule = "PROTOFILE-TOTAL"
+	c.Rule(rule, "the request's ProtoFile list holds one descriptor per image file, at the file's position", 1)
+	p := c.P
+	fr := p.Func("private/bufpkg/bufimage", "imageToCodeGeneratorRequest")
+	if fr == nil {
+		// found by what it builds
+		if pk := p.Pkg("private/bufpkg/bufimage"); pk != nil {
+			for _, f := range p.FuncsOf(pk) {
+				if f.Decl.Type.Results != nil && len(f.Decl.Type.Results.List) >= 1 && strings.HasSuffix(exprString(f.Decl.Type.Results.List[0].Type), "CodeGeneratorRequest") && f.Decl.Recv == nil {
+					fr = f
+				}
+			}
+		}
+	}
+	if fr == nil || fr.Decl.Body == nil {
+		c.Fail(rule, "anchor", token.NoPos, "the function building a CodeGeneratorRequest from an image was not found")
+		return
+	}
+	info := fr.Info()
+	isProtoFileField := func(e ast.Expr) bool {
+		sel, ok := ast.Unparen(e).(*ast.SelectorExpr)
+		return ok && sel.Sel.Name == "ProtoFile"
+	}
+	found := false
+	ast.Inspect(fr.Decl.Body, func(n ast.Node) bool {
+		rs, ok := n.(*ast.RangeStmt)
+		if !ok {
+			return true
+		}
+		// the loop that stores into ProtoFile
+		var store ast.Stmt
+		indexed := false
+		for _, st := range rs.Body.List {
+			as, ok := st.(*ast.AssignStmt)
+			if !ok || len(as.Lhs) != 1 || len(as.Rhs) != 1 {
+				continue
+			}
+			if ix, ok := ast.Unparen(as.Lhs[0]).(*ast.IndexExpr); ok && isProtoFileField(ix.X) {
+				store, indexed = st, true
+				if rs.Key == nil || identObj(info, ix.Index) == nil || identObj(info, ix.Index) != identObj(info, rs.Key) {
+					c.Ob(rule, "store-at-range-key", as.Pos(), false, true, "ProtoFile is indexed by %s, which is not the key of the loop over the image files", exprString(ix.Index))
+					found = true
+					return false
+				}
+			}
+			if isProtoFileField(as.Lhs[0]) {
+				if call, ok := ast.Unparen(as.Rhs[0]).(*ast.CallExpr); ok && len(call.Args) >= 2 && exprString(call.Fun) == "append" && isProtoFileField(call.Args[0]) {
+					store = st
+				}
+			}
+		}
+		if store == nil {
+			return true
+		}
+		found = true
+		skips := 0
+		inspectNoFuncLit(rs.Body, func(m ast.Node) bool {
+			if b, ok := m.(*ast.BranchStmt); ok && (b.Tok == token.CONTINUE || b.Tok == token.BREAK || b.Tok == token.GOTO) {
+				skips++
+			}
+			return true
+		})
+		c.Ob(rule, "store-on-every-iteration", store.Pos(), skips == 0, true, "the ProtoFile store is a top-level statement of the loop over the image files and the loop has %d continue/break statements", skips)
+		if indexed {
+			// the slice was made with one slot per ranged element
+			sized := false
+			ast.Inspect(fr.Decl.Body, func(m ast.Node) bool {
+				kv, ok := m.(*ast.KeyValueExpr)
+				if !ok {
+					return true
+				}
+				if id, ok := kv.Key.(*ast.Ident); ok && id.Name == "ProtoFile" {
+					if mk, ok := ast.Unparen(kv.Value).(*ast.CallExpr); ok && exprString(mk.Fun) == "make" && len(mk.Args) == 2 {
+						if ln, ok := ast.Unparen(mk.Args[1]).(*ast.CallExpr); ok && exprString(ln.Fun) == "len" && len(ln.Args) == 1 && exprString(ln.Args[0]) == exprString(rs.X) {
+							sized = true
+						}
+					}
+				}
+				return true
+			})
+			c.Ob(rule, "sized-by-files", store.Pos(), sized, true, "ProtoFile is made with len(%s) slots, the slice the loop ranges over: %v", exprString(rs.X), sized)
+		}
+		return false
+	})
+	if !found {
+		c.Fail(rule, "store", fr.Decl.Pos(), "no loop storing into ProtoFile found in %s", fr.Decl.Name.Name)
+	}
 }
